@@ -340,7 +340,9 @@ def rule_9(ctx):
     n = S.check_reference_workbook(ctx, anchor, 'reference workbook',
                                    'A reference means the cell with that sheet, column and row - an unqualified one the sheet of the formula\'s own '
                                    'cell, however evaluation got there - and a defined name the cell it is bound to in this workbook.')
-    ctx.floor(40, 'reference-workbook cells')
+    n += S.check_names_history(ctx, anchor, 'reference workbook, edits',
+                               'A defined name means the cell it is bound to - its current value, however the cell was set.')
+    ctx.floor(55, 'reference-workbook cells')
 
 
 RULES = [
